@@ -11,22 +11,16 @@
 From Coq Require Import ZArith QArith Qreals Reals List Bool Lra.
 From Interval Require Import Tactic.
 From Gen Require Import GenIAPWS GenTraced.
-From P Require Import Expr RunR.
+From P Require Import Expr RunR Formulas.
 Import ListNotations.
 Close Scope Q_scope.
 Open Scope R_scope.
 
-Definition c1e6 : Q := (1000000 # 1)%Q.
-
-Section Formulas.
+Section Traced.
   Variable n : nat -> R.
-  (** in the operation order of IAPWS97.b23p / b23t *)
-  Definition b23p_val (tk : R) : R := Q2R c1e6 * (n 0 + tk * (n 1 + tk * n 2)).
-  Definition b23t_q (p : R) : R := (p / Q2R c1e6 - n 4) / n 2.
-  Definition b23t_val (p : R) : R := n 3 + sqrt (b23t_q p) - Q2R tc_k_Q.
 
   Lemma b23p_traced_is (t : R) (r : rres) :
-    runsR b23p_traced [t] n r <-> r = RRet [b23p_val (t + Q2R tc_k_Q)].
+    runsR b23p_traced [t] n r <-> r = RRet [(b23p_val n) (t + Q2R tc_k_Q)].
   Proof.
     unfold runsR, envR.
     cbv [b23p_traced t_paths t_nodes some_pathR condsR condR p_conds p_out outR map].
@@ -36,7 +30,7 @@ Section Formulas.
   Qed.
 
   Lemma b23t_traced_is (p : R) (r : rres) :
-    runsR b23t_traced [p] n r <-> r = RRet [b23t_val p].
+    runsR b23t_traced [p] n r <-> r = RRet [(b23t_val n) p].
   Proof.
     unfold runsR, envR.
     cbv [b23t_traced t_paths t_nodes some_pathR condsR condR p_conds p_out outR map].
@@ -55,12 +49,12 @@ Section Formulas.
   Proof. unfold Q2R, c1e6; cbn; lra. Qed.
 
   Lemma b23t_of_b23p_algebra (tk : R) :
-    n 2 <> 0 -> 0 < tk - n 3 -> 0 <= b23t_q (b23p_val tk) ->
-    b23t_val (b23p_val tk) - (tk - Q2R tc_k_Q)
-    = (res_a * tk + res_b) / (sqrt (b23t_q (b23p_val tk)) + (tk - n 3)).
+    n 2 <> 0 -> 0 < tk - n 3 -> 0 <= (b23t_q n) ((b23p_val n) tk) ->
+    (b23t_val n) ((b23p_val n) tk) - (tk - Q2R tc_k_Q)
+    = (res_a * tk + res_b) / (sqrt ((b23t_q n) ((b23p_val n) tk)) + (tk - n 3)).
   Proof.
     intros H2 Hr Hq. unfold b23t_val.
-    set (q := b23t_q (b23p_val tk)) in *.
+    set (q := (b23t_q n) ((b23p_val n) tk)) in *.
     assert (E : q - (tk - n 3) * (tk - n 3) = res_a * tk + res_b).
     { unfold q, b23t_q, b23p_val, res_a, res_b. field. split; [exact H2|exact c1e6_nz]. }
     assert (Hs : sqrt q * sqrt q = q) by (apply sqrt_sqrt; exact Hq).
@@ -69,18 +63,18 @@ Section Formulas.
   Qed.
 
   Lemma b23p_of_b23t_algebra (p : R) :
-    n 2 <> 0 -> 0 <= b23t_q p ->
-    b23p_val (b23t_val p + Q2R tc_k_Q) - p = Q2R c1e6 * (res_c0 + res_c1 * sqrt (b23t_q p)).
+    n 2 <> 0 -> 0 <= (b23t_q n) p ->
+    (b23p_val n) ((b23t_val n) p + Q2R tc_k_Q) - p = Q2R c1e6 * (res_c0 + res_c1 * sqrt ((b23t_q n) p)).
   Proof.
     intros H2 Hq. unfold b23t_val, b23p_val.
-    set (s := sqrt (b23t_q p)).
-    assert (Hs : s * s = b23t_q p) by (apply sqrt_sqrt; exact Hq).
+    set (s := sqrt ((b23t_q n) p)).
+    assert (Hs : s * s = (b23t_q n) p) by (apply sqrt_sqrt; exact Hq).
     replace (n 3 + s - Q2R tc_k_Q + Q2R tc_k_Q) with (n 3 + s) by ring.
     assert (Ep : p = Q2R c1e6 * (n 2 * (s * s) + n 4)).
     { rewrite Hs. unfold b23t_q. field. split; [exact c1e6_nz|exact H2]. }
     clear Hs. clearbody s. rewrite Ep. unfold res_c0, res_c1. ring.
   Qed.
-End Formulas.
+End Traced.
 
 (** ** the coefficients of the source *)
 Definition n23 : nat -> R := coefR nr23_Q.
